@@ -204,3 +204,32 @@ func SortedKeys[M ~map[string]V, V any](m M) []string {
 	sort.Strings(ks)
 	return ks
 }
+
+// LibraryPanicSite inspects a stack captured in a deferred recover: if, going down from the panic, a frame
+// of the library under test comes before any harness frame, it returns that function's name.
+func LibraryPanicSite(stack string) string {
+	lines := strings.Split(stack, "\n")
+	seenPanic := false
+	for _, l := range lines {
+		if strings.HasPrefix(l, "\t") || l == "" {
+			continue
+		}
+		if !seenPanic {
+			if strings.HasPrefix(l, "panic(") {
+				seenPanic = true
+			}
+			continue
+		}
+		switch {
+		case strings.HasPrefix(l, "github.com/russellhaering/gosaml2"):
+			fn := l
+			if i := strings.LastIndex(fn, "("); i > 0 {
+				fn = fn[:i]
+			}
+			return strings.TrimPrefix(fn, "github.com/russellhaering/")
+		case strings.HasPrefix(l, "verifsim/"), strings.HasPrefix(l, "main."):
+			return ""
+		}
+	}
+	return ""
+}
